@@ -75,8 +75,13 @@ func mkConfig(audit bool, proofType string) *repo.Config {
 	cfg.Genesis.ChainID = bxhID
 	cfg.Genesis.Balance = "1000000000000000000000000"
 	cfg.Genesis.Admins = nil
-	for _, n := range adminNames {
-		cfg.Genesis.Admins = append(cfg.Genesis.Admins, &repo.Admin{Address: acct(n).addr.String(), Weight: 2})
+	// adm0 is the super administrator (weight 2), adm1..adm3 are ordinary governance admins (weight 1)
+	for i, n := range adminNames {
+		w := uint64(repo.NormalAdminWeight)
+		if i == 0 {
+			w = repo.SuperAdminWeight
+		}
+		cfg.Genesis.Admins = append(cfg.Genesis.Admins, &repo.Admin{Address: acct(n).addr.String(), Weight: w})
 	}
 	return cfg
 }
@@ -208,4 +213,12 @@ func rmDir(d string) {
 func fail(format string, a ...interface{}) {
 	fmt.Fprintf(os.Stderr, format+"\n", a...)
 	os.Exit(3)
+}
+
+// nameOf maps an address back to the symbolic account name used in the op language (the address itself if unknown)
+func nameOf(addr string) string {
+	if n, ok := addrNames[strings.ToLower(addr)]; ok {
+		return n
+	}
+	return addr
 }
